@@ -12,7 +12,7 @@ namespace Wp.C20.Absent
 open Wp Wp.Res
 
 /-- The fetcher raises for every request that shares the cache key `k` (for URLs without spaces: for the URL). -/
-def FailsKey (f : Fetcher) (k : String) : Prop := ∀ req : Req, req.key = k → ∃ e, f req.url = .raises e
+def FailsKey (f : Fetcher) (k : String) : Prop := ∀ (req : Req) (o : Opts), req.key o = k → ∃ e, f req.url = .raises e
 
 /-- The caches agree, except that one may hold the `None` of a failed fetch where the other holds nothing. -/
 def Agree (f : Fetcher) (c1 c2 : Cache) : Prop :=
@@ -37,12 +37,12 @@ private theorem agree_cons (f : Fetcher) (c1 c2 : Cache) (k : String) (v : Optio
   · simp only [hk, Bool.false_eq_true, ↓reduceIte]; exact h k'
 
 /-- On a cache miss, what `get_image_from_uri` does depends on the cache only through the miss. -/
-private theorem getImage_miss (c : Cache) (f : Fetcher) (o : Opts) (req : Req) (h : c.find? req.key = none) :
+private theorem getImage_miss (c : Cache) (f : Fetcher) (o : Opts) (req : Req) (h : c.find? (req.key o) = none) :
     ∃ evs out, (getImage [] f o req).2 = (evs, out) ∧
-      ((∃ img, out = .ok (some img) ∧ getImage c f o req = ((req.key, some img) :: c, evs, .ok (some img))) ∨
-       (out = .ok none ∧ getImage c f o req = ((req.key, none) :: c, evs, .ok none)) ∨
+      ((∃ img, out = .ok (some img) ∧ getImage c f o req = (((req.key o), some img) :: c, evs, .ok (some img))) ∨
+       (out = .ok none ∧ getImage c f o req = (((req.key o), none) :: c, evs, .ok none)) ∨
        (∃ e, out = .error e ∧ getImage c f o req = (c, evs, .error e))) := by
-  have hnil : Cache.find? ([] : Cache) req.key = none := rfl
+  have hnil : Cache.find? ([] : Cache) (req.key o) = none := rfl
   unfold getImage
   simp only [h, hnil]
   cases hfe : fetch (f req.url) req.url (imageBody req) with
@@ -65,23 +65,23 @@ private theorem getImage_miss (c : Cache) (f : Fetcher) (o : Opts) (req : Req) (
         · exact ⟨evs, .ok none, by simp [hcls], Or.inr (Or.inl ⟨rfl, by simp [hcls]⟩)⟩
 
 /-- When the fetcher raises, a miss gives `None`. -/
-private theorem getImage_fails (c : Cache) (f : Fetcher) (o : Opts) (req : Req) (h : c.find? req.key = none)
-    (hf : FailsKey f req.key) : ∃ evs, getImage c f o req = ((req.key, none) :: c, evs, .ok none) := by
-  obtain ⟨e, he⟩ := hf req rfl
+private theorem getImage_fails (c : Cache) (f : Fetcher) (o : Opts) (req : Req) (h : c.find? (req.key o) = none)
+    (hf : FailsKey f (req.key o)) : ∃ evs, getImage c f o req = (((req.key o), none) :: c, evs, .ok none) := by
+  obtain ⟨e, he⟩ := hf req o rfl
   exact ⟨[.call req.url], Wp.C20.image_fetch_failure_is_none c f o req e h he⟩
 
 /-- One call on agreeing caches: same result, and the caches still agree. -/
 private theorem getImage_agree (f : Fetcher) (o : Opts) (req : Req) (c1 c2 : Cache) (h : Agree f c1 c2) :
     (getImage c1 f o req).2.2 = (getImage c2 f o req).2.2 ∧
     Agree f (getImage c1 f o req).1 (getImage c2 f o req).1 := by
-  rcases h req.key with heq | ⟨hfail, hcase⟩
-  · cases h1 : c1.find? req.key with
+  rcases h (req.key o) with heq | ⟨hfail, hcase⟩
+  · cases h1 : c1.find? (req.key o) with
     | some v =>
-      have h2 : c2.find? req.key = some v := by rw [← heq, h1]
+      have h2 : c2.find? (req.key o) = some v := by rw [← heq, h1]
       rw [Wp.C20.image_cache_hit c1 f o req v h1, Wp.C20.image_cache_hit c2 f o req v h2]
       exact ⟨rfl, h⟩
     | none =>
-      have h2 : c2.find? req.key = none := by rw [← heq, h1]
+      have h2 : c2.find? (req.key o) = none := by rw [← heq, h1]
       obtain ⟨evs, out, _, hc1⟩ := getImage_miss c1 f o req h1
       obtain ⟨evs', out', _, hc2⟩ := getImage_miss c2 f o req h2
       have hsame : (getImage [] f o req).2 = (evs, out) ∧ (getImage [] f o req).2 = (evs', out') := by
@@ -112,8 +112,8 @@ private theorem getImage_agree (f : Fetcher) (o : Opts) (req : Req) (c1 c2 : Cac
       refine ⟨rfl, ?_⟩
       intro k
       rw [find_cons]
-      by_cases hk : (req.key == k) = true
-      · have : req.key = k := by simpa using hk
+      by_cases hk : ((req.key o) == k) = true
+      · have : (req.key o) = k := by simpa using hk
         subst this
         simp [h1]
       · simp only [hk, Bool.false_eq_true, ↓reduceIte]; exact h k
@@ -122,8 +122,8 @@ private theorem getImage_agree (f : Fetcher) (o : Opts) (req : Req) (c1 c2 : Cac
       refine ⟨rfl, ?_⟩
       intro k
       rw [find_cons]
-      by_cases hk : (req.key == k) = true
-      · have : req.key = k := by simpa using hk
+      by_cases hk : ((req.key o) == k) = true
+      · have : (req.key o) = k := by simpa using hk
         subst this
         simp [h2]
       · simp only [hk, Bool.false_eq_true, ↓reduceIte]; exact h k
@@ -167,7 +167,7 @@ private theorem runRefs_agree (f : Fetcher) (o : Opts) (refs : List Doc.ImgRef) 
 /-- `getImage` keeps the cache sound. -/
 private theorem getImage_sound (f : Fetcher) (o : Opts) (req : Req) (c : Cache) (h : Sound f c) :
     Sound f (getImage c f o req).1 := by
-  cases hc : c.find? req.key with
+  cases hc : c.find? (req.key o) with
   | some v => rw [Wp.C20.image_cache_hit c f o req v hc]; exact h
   | none =>
     obtain ⟨evs, out, hnil, hcase⟩ := getImage_miss c f o req hc
@@ -175,8 +175,8 @@ private theorem getImage_sound (f : Fetcher) (o : Opts) (req : Req) (c : Cache) 
     · rw [hg]
       intro k img' hk hfail
       rw [find_cons] at hk
-      by_cases hkk : (req.key == k) = true
-      · have hkeq : req.key = k := by simpa using hkk
+      by_cases hkk : ((req.key o) == k) = true
+      · have hkeq : (req.key o) = k := by simpa using hkk
         subst hkeq
         obtain ⟨evs', hf⟩ := getImage_fails c f o req hc hfail
         rw [hg] at hf
@@ -186,7 +186,7 @@ private theorem getImage_sound (f : Fetcher) (o : Opts) (req : Req) (c : Cache) 
     · rw [hg]
       intro k img' hk hfail
       rw [find_cons] at hk
-      by_cases hkk : (req.key == k) = true
+      by_cases hkk : ((req.key o) == k) = true
       · simp [hkk] at hk
       · simp only [hkk, Bool.false_eq_true, ↓reduceIte] at hk
         exact h k img' hk hfail
@@ -201,7 +201,7 @@ private theorem refBoxes_withoutUrl (r : Doc.ImgRef) : Doc.refBoxes r none = Doc
     (Wp.C20.failure_as_absent_embed_object r.url).2]
 
 private theorem step_failed (f : Fetcher) (o : Opts) (r : Doc.ImgRef) (post : List Doc.ImgRef) (c : Cache) (u : String)
-    (hs : Sound f c) (hu : r.url = some u) (hfail : FailsKey f (Req.key ⟨u, r.orient, r.forcedMime⟩)) :
+    (hs : Sound f c) (hu : r.url = some u) (hfail : FailsKey f (Req.key ⟨u, r.orient, r.forcedMime⟩ o)) :
     (Doc.runRefs f o c (r :: post)).2.1 = (Doc.runRefs f o c (withoutUrl r :: post)).2.1 ∧
     (Doc.runRefs f o c (r :: post)).2.2.2 = (Doc.runRefs f o c (withoutUrl r :: post)).2.2.2 := by
   have hw : (withoutUrl r).url = none := rfl
@@ -213,7 +213,7 @@ private theorem step_failed (f : Fetcher) (o : Opts) (r : Doc.ImgRef) (post : Li
   · simp only [he, ↓reduceIte, hb, and_self]
   · have he' : (u == "") = false := by simpa using he
     simp only [he', Bool.false_eq_true, ↓reduceIte]
-    cases hc : c.find? (Req.key ⟨u, r.orient, r.forcedMime⟩) with
+    cases hc : c.find? (Req.key ⟨u, r.orient, r.forcedMime⟩ o) with
     | some v =>
       have hv : v = none := by
         cases v with
@@ -226,11 +226,11 @@ private theorem step_failed (f : Fetcher) (o : Opts) (r : Doc.ImgRef) (post : Li
       obtain ⟨evs, hg⟩ := getImage_fails c f o ⟨u, r.orient, r.forcedMime⟩ hc hfail
       rw [hg]
       simp only
-      have hag : Agree f ((Req.key ⟨u, r.orient, r.forcedMime⟩, none) :: c) c := by
+      have hag : Agree f ((Req.key ⟨u, r.orient, r.forcedMime⟩ o, none) :: c) c := by
         intro k
         rw [find_cons]
-        by_cases hk : (Req.key ⟨u, r.orient, r.forcedMime⟩ == k) = true
-        · have : Req.key ⟨u, r.orient, r.forcedMime⟩ = k := by simpa using hk
+        by_cases hk : (Req.key ⟨u, r.orient, r.forcedMime⟩ o == k) = true
+        · have : Req.key ⟨u, r.orient, r.forcedMime⟩ o = k := by simpa using hk
           subst this
           rw [if_pos hk]
           exact Or.inr ⟨hfail, Or.inl ⟨rfl, hc⟩⟩
@@ -245,7 +245,7 @@ the boxes that the document without that URL gives (alt text, fallback children,
 place; and the `None` it leaves in the shared image cache is never seen by a later reference), and the
 image stage ends the same way. -/
 theorem failure_as_absent_image_reference (f : Fetcher) (o : Opts) (pre post : List Doc.ImgRef) (r : Doc.ImgRef)
-    (u : String) (hu : r.url = some u) (hfail : FailsKey f (Req.key ⟨u, r.orient, r.forcedMime⟩)) :
+    (u : String) (hu : r.url = some u) (hfail : FailsKey f (Req.key ⟨u, r.orient, r.forcedMime⟩ o)) :
     (Doc.runRefs f o [] (pre ++ r :: post)).2.1 = (Doc.runRefs f o [] (pre ++ withoutUrl r :: post)).2.1 ∧
     (Doc.runRefs f o [] (pre ++ r :: post)).2.2.2 = (Doc.runRefs f o [] (pre ++ withoutUrl r :: post)).2.2.2 := by
   have hs0 : Sound f [] := by intro k img hk; simp [Cache.find?] at hk
@@ -286,11 +286,11 @@ theorem failure_as_absent_image_reference (f : Fetcher) (o : Opts) (pre post : L
 /-- Non-vacuity: a failing `<img alt>` between two uses of a good image and followed by a second reference
 to the failing URL. -/
 example :
-    let good : Fetched := .resp ⟨true, none, none, none, ⟨1, false, some ⟨"PNG", "RGB", false, false⟩, false, true, false⟩⟩
+    let good : Fetched := .resp ⟨true, none, none, none, ⟨1, false, some ⟨"PNG", "RGB", false, false, true⟩, false, true, false⟩⟩
     let f : Fetcher := fun u => if u == "http://a.test/bad.png" then .raises ⟨"OSError", "reset"⟩ else good
-    let bad : Doc.ImgRef := ⟨.img, some "http://a.test/bad.png", some "ALT", .fromImage, none⟩
-    let ok : Doc.ImgRef := ⟨.img, some "http://a.test/ok.png", none, .fromImage, none⟩
-    (Doc.runRefs f ⟨false, false⟩ [] [ok, bad, ok, ⟨.background, some "http://a.test/bad.png", none, .fromImage, none⟩]).2.1 =
+    let bad : Doc.ImgRef := ⟨.img, some "http://a.test/bad.png", some "ALT", .fromImage, none, none⟩
+    let ok : Doc.ImgRef := ⟨.img, some "http://a.test/ok.png", none, .fromImage, none, none⟩
+    (Doc.runRefs f ⟨false, none, none⟩ [] [ok, bad, ok, ⟨.background, some "http://a.test/bad.png", none, .fromImage, none, none⟩]).2.1 =
       [[.replaced], [.altText "ALT"], [.replaced], []] := by decide +kernel
 
 end Wp.C20.Absent
